@@ -120,6 +120,35 @@ fn run_py(mode: &str, seqs: Vec<String>, k: usize, w: usize, m: usize, vecsize: 
                 match batch {
                     Err(e) => {
                         if bad && e.is_instance_of::<PyValueError>(py) {
+                            // the refusal must leave the object as good as new: the very same
+                            // computer still gives every clean string of the batch its points,
+                            // and still refuses the others
+                            for (i, s) in seqs.iter().enumerate() {
+                                let clean = s.bytes().all(|b| model::cgr_corner(b).is_some());
+                                match obj.call_method1("vectorise_one", (s.as_str(),)) {
+                                    Ok(v) => {
+                                        if !clean {
+                                            return viol("bad_nucleotide_accepted", format!("after a refused batch, vectorise_one accepted sequence {i}, which holds a non-nucleotide character"));
+                                        }
+                                        let one: Vec<(f64, f64)> = match v.extract() {
+                                            Ok(v) => v,
+                                            Err(e) => return viol("py_type", format!("unexpected result type: {}", err_text(py, &e))),
+                                        };
+                                        let pts: Vec<Vec<f64>> = one.iter().map(|p| vec![p.0, p.1]).collect();
+                                        if let Err(e) = super::c11::check_cgr_row(s.as_bytes(), vecsize as f64, &pts) {
+                                            return viol("value", format!("after a refused batch, sequence {i}: {e}"));
+                                        }
+                                    }
+                                    Err(e) => {
+                                        if clean {
+                                            return viol("state_after_error", format!("after a refused batch the same computer refuses the clean sequence {i} ({} chars): {}", s.len(), err_text(py, &e)));
+                                        }
+                                        if !e.is_instance_of::<PyValueError>(py) {
+                                            return viol("not_value_error", format!("vectorise_one raised {}", err_text(py, &e)));
+                                        }
+                                    }
+                                }
+                            }
                             return PyOutcome::ValueError;
                         }
                         return viol(
@@ -254,6 +283,8 @@ impl Engine for C13 {
             tab_desc_pct: 0,
             utf8_id_pct: 0,
             dup_id_pct: 0,
+            mega_1_in: 0,
+            twin_mega_1_in: 0,
         };
         let mut records = g.gen(rng);
         while records.len() < batch {
@@ -268,7 +299,8 @@ impl Engine for C13 {
         // now and then one very long Python string (beyond 16 KiB)
         if !records.is_empty() && rng.chance(1, 20) {
             let i = rng.usize(0, records.len() - 1);
-            let len = rng.usize(16385, 40000);
+            // (one in four of them beyond 2^16 as well)
+            let len = if rng.chance(1, 4) { rng.usize(65537, 140000) } else { rng.usize(16385, 40000) };
             let a = if mode == "cgr_batch" { Alpha::Mixed } else { Alpha::WithN };
             records[i].seq = gen_seq(rng, len, a);
         }
